@@ -145,12 +145,12 @@ def main():
 
     jobs = [("step", run_step, dict(replay=replay_step, timeout_ms=30000))]
     perms = list(itertools.permutations(range(NG)))
-    jobs.append(("fight[%dx%d,init=2]" % (NG, NP), mk_composed(NG, NP, [tuple(range(NG))], 2), dict(replay=replay_composed, timeout_ms=30000)))
+    jobs.append(("fight[%dx%d,init=2]" % (NG, NP), mk_composed(NG, NP, [tuple(range(NG))], 2), dict(replay=replay_composed, timeout_ms=30000, maxpaths=100000)))
     jobs.append(("assignlabels[2x2,init=1]", mk_composed(2, 2, [(0, 1)], 1), dict(replay=replay_composed, timeout_ms=30000)))
     for p in perms[1:]:
         jobs.append(("order[%dx1,%s]" % (NG, "".join(map(str, p))), mk_composed(NG, 1, [tuple(range(NG)), p], 2), dict(replay=replay_composed, timeout_ms=30000)))
     if thorough:
-        jobs.append(("fight[4x2]", mk_composed(4, 2, [tuple(range(4))], 2), dict(replay=replay_composed, timeout_ms=30000)))
+        jobs.append(("fight[4x2]", mk_composed(4, 2, [tuple(range(4))], 2), dict(replay=replay_composed, timeout_ms=30000, maxpaths=100000)))
     harness.run_parallel(ck, jobs)
 
     # ------------------------------------------------------------------ myhistogram with symbolic labels
@@ -242,7 +242,7 @@ def main():
             if list(ix.gas) != want: return True, "fight_over_peaks: gas=%s but labels %s give counts %s (grains u=%s, peaks x=%s)" % (list(ix.gas), ix.ga.tolist(), want, us.tolist(), x.tolist())
         return False, "driver agrees with the histogram of its labels on the confirmation family"
     harness.run_parallel(ck, [("fight_over_peaks(python)[3x2]", run_fight(3, 2), dict(replay=replay_fight, timeout_ms=30000))] +
-                         ([("fight_over_peaks(python)[2x3]", run_fight(2, 3), dict(replay=replay_fight, timeout_ms=30000))] if thorough else []))
+                         ([("fight_over_peaks(python)[2x3]", run_fight(2, 3), dict(replay=replay_fight, timeout_ms=30000, maxpaths=50000))] if thorough else []))
 
     # ------------------------------------------------------------------ threads: footprint of the parallel loop
     def setup(it):
